@@ -35,7 +35,7 @@ PROPERTIES = {
         "min_obligations": 2000,
     },
     "C12": {
-        "contracts": [join.Stack, join.Concatenate, join.JoinAligned],
+        "contracts": [join.Stack, join.Concatenate, join.JoinAlignedProof, join.JoinAligned],
         "level": "other",
         "min_obligations": 1500,
         "explanation": "proved: stack / concatenate without align (labels, by-name placement of every cell, refusal of differing labels, no metadata, inputs untouched); bounded stand-in: align=True (composition with align, which is proved under C06).",
@@ -104,7 +104,7 @@ PROPERTIES = {
         "min_obligations": 2000,
     },
     "C17": {
-        "contracts": [align.SortAxis, align.TakeAxis, missing.CompressAxis, missing.FillNa, missing.SetNa, missing.DropNa1D, missing.DropNaND],
+        "contracts": [align.SortAxis, align.TakeAxis, missing.CompressAxis, missing.FillNa, missing.SetNa, missing.DropNa1D, missing.DropNaND, missing.DropNaMinvalid],
         "level": "proof",
         "min_obligations": 200,
     },
